@@ -100,6 +100,11 @@ impl Report {
         }
     }
     pub fn violate(&mut self, key: String, what: String, case: Value) {
+        // a vanished scratch file is the harness's problem (someone removed /dev/shm/skaverif.*), never a verdict
+        if what.contains("Invalid path/file") && what.contains("skaverif.") {
+            self.machinery(format!("scratch file vanished during the run: {}", what.chars().take(160).collect::<String>()));
+            return;
+        }
         self.violation_count += 1;
         if self.violations.len() < 40 && !self.violations.iter().any(|v| v.key == key) {
             self.violations.push(Violation { key, what, case });
